@@ -96,6 +96,7 @@ type VC struct {
 	uncontracted map[string]bool
 	havocked bool
 	mergedResults []SVal
+	assertDone    map[string]bool
 }
 
 type debugBinding struct {
